@@ -8,12 +8,13 @@ import time
 
 
 class Worker:
-    def __init__(self, binary, cwd=None, stack_mb=256, env=None, timeout=20.0):
+    def __init__(self, binary, cwd=None, stack_mb=256, env=None, timeout=20.0, mem_gb=6):
         self.binary = binary
         self.cwd = cwd
         self.stack_mb = stack_mb
         self.env = env
         self.timeout = timeout
+        self.mem_gb = mem_gb      # address-space limit of the worker (0 = none): a runaway compilation must not take the box down
         self.proc = None
         self.spawns = 0
         self.deaths = 0
@@ -35,6 +36,7 @@ class Worker:
             stderr=subprocess.DEVNULL,
             pass_fds=(r_req, w_resp),
             close_fds=True,
+            preexec_fn=self._limits if self.mem_gb else None,
         )
         os.close(r_req)
         os.close(w_resp)
@@ -42,6 +44,14 @@ class Worker:
         self.r = r_resp
         self._buf = b""
         self.spawns += 1
+
+    def _limits(self):
+        import resource
+        lim = int(self.mem_gb * (1 << 30))
+        try:
+            resource.setrlimit(resource.RLIMIT_AS, (lim, lim))
+        except (ValueError, OSError):
+            pass
 
     def _env(self):
         e = dict(os.environ if self.env is None else self.env)
